@@ -965,7 +965,7 @@ func init() {
 		}
 	}
 	// C09/C12: two registered derived profiles whose claims types have the same reflect.Type.String() ("props.ExtP2Claims")
-	for _, prop := range []string{"C09", "C12"} {
+	for _, prop := range []string{"C09", "C12", "C03"} {
 		prop := prop
 		Scenarios[strings.ToLower(prop)+".same-name-claim-types"] = func() (choice.Scenario, func() any) {
 			return func(c *choice.Ctx) {
@@ -1024,6 +1024,18 @@ func init() {
 					if prop == "C09" {
 						if enc, err = psatoken.EncodeClaimsToCBOR(x); err == nil {
 							y, err = psatoken.DecodeClaimsFromCBOR(enc)
+						}
+					} else if prop == "C03" {
+						ev := &psatoken.Evidence{}
+						if err = ev.SetClaims(x); err == nil {
+							k := fixtures.Get("ES256", 1)
+							if enc, err = ev.ValidateAndSign(k.Signer()); err == nil {
+								var ev2 *psatoken.Evidence
+								if ev2, err = psatoken.DecodeAndValidateEvidenceFromCOSE(enc); err == nil {
+									y = ev2.Claims
+									err = ev2.Verify(k.Pub)
+								}
+							}
 						}
 					} else {
 						if enc, err = psatoken.EncodeClaimsToJSON(x); err == nil {
